@@ -40,8 +40,8 @@ class Session:
         """-> (unknown violations); known ones are counted and dropped."""
         unknown = []
         for v in violations:
-            # an exception raised from inside a closed-form field routine (field_BH_*.py, special_*.py) is the subject
-            # of C15 ("every finite input yields a finite field", no exception) and, for late failures after an
+            # an exception raised from inside the elliptic-integral routines (special_*.py: NaN arguments near special
+            # sets, open finding KF-C15-2) is the subject of C15 ("every finite input yields a finite field", no exception) and, for late failures after an
             # accepted assignment, of C17; the other checks count it and move on instead of reporting it as theirs
             if self.left_to_c15(v):
                 continue
@@ -66,7 +66,7 @@ class Session:
 
     def left_to_c15(self, v):
         if (self.prop.ID not in ("C15", "C17") and isinstance(v.sig, dict) and "exc" in v.sig
-                and str(v.sig.get("frame", "")).startswith(("special_", "field_BH_"))):
+                and str(v.sig.get("frame", "")).startswith("special_")):
             self.ctx.excluded_known["field_routine_exception_left_to_C15"] += 1
             return True
         return False
